@@ -30,6 +30,9 @@ pub enum Op {
     /// a route along registered pairs: start pair picked by `first`, then up to two more hops
     /// continuing from the previous ask asset through registered pairs picked by `next`
     AddRouteValid { first: u16, flip: bool, next: Vec<u16> },
+    /// several routes in ONE AddSwapRoutes message: routes along registered pairs (resolved like
+    /// `AddRouteValid`) and free ones (mostly with an unregistered hop), the free ones first or last
+    AddRouteBatch { valid: Vec<(u16, bool, Vec<u16>)>, free: Vec<Vec<(u8, u8)>>, free_first: bool },
     /// remove a registered pair and create it again with the assets in the other order
     RecreatePair { sel: u16 },
     RemoveRoute { sel: u16 },
@@ -54,12 +57,38 @@ fn op() -> BoxedStrategy<Op> {
         3 => a().prop_map(|a| Op::CreateIncentive { a }),
         2 => prop::collection::vec((a(), a()), 1..4).prop_map(|hops| Op::AddRoute { hops }),
         5 => (any::<u16>(), any::<bool>(), prop::collection::vec(any::<u16>(), 0..3)).prop_map(|(first, flip, next)| Op::AddRouteValid { first, flip, next }),
+        3 => (
+            prop::collection::vec((any::<u16>(), any::<bool>(), prop::collection::vec(any::<u16>(), 0..3)), 1..3),
+            prop::collection::vec(prop::collection::vec((a(), a()), 1..3), 0..2),
+            any::<bool>()
+        )
+            .prop_map(|(valid, free, free_first)| Op::AddRouteBatch { valid, free, free_first }),
         2 => any::<u16>().prop_map(|sel| Op::RecreatePair { sel }),
         1 => any::<u16>().prop_map(|sel| Op::RemoveRoute { sel }),
         3 => (any::<u16>(), gen::log_uniform(1, 1u128 << 30)).prop_map(|(sel, amount)| Op::ExecRoute { sel, amount: Uint128::new(amount) }),
         7 => (0u8..4, prop_oneof![4 => 1u8..4, 2 => 1u8..=31, 1 => Just(30u8), 1 => Just(31u8), 2 => Just(0u8)]).prop_map(|(what, limit)| Op::List { what, limit }),
     ]
     .boxed()
+}
+
+/// A route along registered pairs: the start pair is picked by `first`, each further hop continues
+/// from the previous ask asset through a registered pair picked by `next`.
+fn resolve_route(keys: &[(usize, usize)], first: u16, flip: bool, next: &[u16]) -> Vec<(u8, u8)> {
+    let (x, y) = keys[gen::idx(first, keys.len())];
+    let mut hops = vec![if flip { (y, x) } else { (x, y) }];
+    for n in next {
+        let cur = hops.last().unwrap().1;
+        let prev = hops.last().unwrap().0;
+        let cands: Vec<usize> = keys
+            .iter()
+            .filter_map(|(p, q)| if *p == cur && *q != prev { Some(*q) } else if *q == cur && *p != prev { Some(*p) } else { None })
+            .collect();
+        if cands.is_empty() {
+            break;
+        }
+        hops.push((cur, cands[gen::idx(*n, cands.len())]));
+    }
+    hops.iter().map(|(a, b)| (*a as u8, *b as u8)).collect()
 }
 
 const PERMS: [[usize; 3]; 6] = [[0, 1, 2], [0, 2, 1], [1, 0, 2], [1, 2, 0], [2, 0, 1], [2, 1, 0]];
@@ -230,21 +259,23 @@ impl Check for Registries {
                     if keys.is_empty() {
                         continue;
                     }
-                    let (x, y) = keys[gen::idx(*first, keys.len())];
-                    let mut hops = vec![if *flip { (y, x) } else { (x, y) }];
-                    for n in next {
-                        let cur = hops.last().unwrap().1;
-                        let prev = hops.last().unwrap().0;
-                        let cands: Vec<usize> = keys
-                            .iter()
-                            .filter_map(|(p, q)| if *p == cur && *q != prev { Some(*q) } else if *q == cur && *p != prev { Some(*p) } else { None })
-                            .collect();
-                        if cands.is_empty() {
-                            break;
-                        }
-                        hops.push((cur, cands[gen::idx(*n, cands.len())]));
+                    Op::AddRoute { hops: resolve_route(&keys, *first, *flip, next) }
+                }
+                Op::AddRouteBatch { valid, free, free_first } if !valid.is_empty() => {
+                    // resolved into free routes here; handled by the batch arm below
+                    let keys: Vec<(usize, usize)> = r.pairs.keys().cloned().collect();
+                    if keys.is_empty() {
+                        continue;
                     }
-                    Op::AddRoute { hops: hops.iter().map(|(a, b)| (*a as u8, *b as u8)).collect() }
+                    let mut routes: Vec<Vec<(u8, u8)>> = valid.iter().map(|(f, fl, n)| resolve_route(&keys, *f, *fl, n)).collect();
+                    if *free_first {
+                        let mut v = free.clone();
+                        v.append(&mut routes);
+                        routes = v;
+                    } else {
+                        routes.extend(free.iter().cloned());
+                    }
+                    Op::AddRouteBatch { valid: vec![], free: routes, free_first: false }
                 }
                 Op::RecreatePair { sel } => {
                     let keys: Vec<(usize, usize)> = r.pairs.keys().cloned().collect();
@@ -260,6 +291,7 @@ impl Check for Registries {
             let op = &op;
             match op {
                 Op::AddRouteValid { .. } | Op::RecreatePair { .. } => unreachable!(),
+                Op::AddRouteBatch { valid, .. } if !valid.is_empty() => unreachable!(),
                 Op::CreatePair { a, b, stable } => {
                     let (a, b) = (*a as usize % N_ASSETS, *b as usize % N_ASSETS);
                     let key = (a.min(b), a.max(b));
@@ -433,6 +465,57 @@ impl Check for Registries {
                         r.routes.retain(|(f2, t2, _)| !(*f2 == from && *t2 == to));
                         r.routes.push((from, to, hops.clone()));
                         let _ = chain_ok;
+                    }
+                }
+                Op::AddRouteBatch { free, .. } => {
+                    let routes: Vec<Vec<(usize, usize)>> = free
+                        .iter()
+                        .filter(|h| !h.is_empty())
+                        .map(|h| h.iter().map(|(a, b)| (*a as usize % N_ASSETS, *b as usize % N_ASSETS)).collect())
+                        .collect();
+                    if routes.is_empty() {
+                        continue;
+                    }
+                    let to_ops = |hops: &Vec<(usize, usize)>| -> Vec<router::SwapOperation> {
+                        hops.iter()
+                            .map(|(a, b)| router::SwapOperation::TerraSwap { offer_asset_info: r.assets[*a].clone(), ask_asset_info: r.assets[*b].clone() })
+                            .collect()
+                    };
+                    let ends: Vec<(usize, usize)> = routes.iter().map(|h| (h[0].0, h[h.len() - 1].1)).collect();
+                    let valid: Vec<bool> = routes.iter().map(|h| h.iter().all(|(a, b)| a != b && r.pairs.contains_key(&(*a.min(b), *a.max(b))))).collect();
+                    let msg_routes: Vec<router::SwapRoute> = routes
+                        .iter()
+                        .zip(&ends)
+                        .map(|(h, (f, t))| router::SwapRoute { offer_asset_info: r.assets[*f].clone(), ask_asset_info: r.assets[*t].clone(), swap_operations: to_ops(h) })
+                        .collect();
+                    let stored_now = |r: &Reg, f: usize, t: usize| -> Option<Vec<router::SwapOperation>> {
+                        r.w.query::<Vec<router::SwapOperation>, _>(&router_addr, &router::QueryMsg::SwapRoute { offer_asset_info: r.assets[f].clone(), ask_asset_info: r.assets[t].clone() }).ok()
+                    };
+                    let before: Vec<Option<Vec<router::SwapOperation>>> = ends.iter().map(|(f, t)| stored_now(&r, *f, *t)).collect();
+                    let res = r.w.exec(&owner, &router_addr, &router::ExecuteMsg::AddSwapRoutes { swap_routes: msg_routes.clone() }, &[]);
+                    rec.class(if valid.iter().all(|v| *v) { "route_batch_all_registered" } else if valid.iter().any(|v| *v) { "route_batch_mixed" } else { "route_batch_none_registered" });
+                    if res.is_ok() {
+                        rec.class("route_batch_accepted");
+                        for (i, h) in routes.iter().enumerate() {
+                            let (f, t) = ends[i];
+                            if valid[i] {
+                                r.routes.retain(|(f2, t2, _)| !(*f2 == f && *t2 == t));
+                                r.routes.push((f, t, h.clone()));
+                            }
+                        }
+                        for (i, h) in routes.iter().enumerate() {
+                            if valid[i] {
+                                continue;
+                            }
+                            let (f, t) = ends[i];
+                            // a later valid route of the same batch with the same ends legitimately overwrites the key
+                            let after = stored_now(&r, f, t);
+                            ensure!(
+                                after != Some(msg_routes[i].swap_operations.clone()) || after == before[i],
+                                "step {step}: route {h:?} of a batch of {} has an unregistered hop and was stored",
+                                routes.len()
+                            );
+                        }
                     }
                 }
                 Op::RemoveRoute { sel } => {
